@@ -5,7 +5,10 @@ Every function name says what the rule must conclude:
   ok_*     order-insensitive consumption                                          -> silent
   exempt_* order-sensitive consumption of a set of ints                           -> exempt
   addr_*   use of id()/hash()                                                      -> finding (address-dependent)
+  clock_*  use of time / random                                                   -> finding (nondeterministic-source)
 """
+import time
+import random
 
 
 class N:
@@ -129,3 +132,12 @@ def addr_sort(nodes):
 
 def addr_hash(n):
     return hash(n) % 7
+
+
+def clock_stamp():
+    return "// decompiled at %d" % time.time()
+
+
+def clock_shuffle(items):
+    random.shuffle(items)
+    return items
